@@ -411,15 +411,15 @@ def run_query(D, src, names):
         return ('raised', type(e).__name__)
 
 
-def path_class(path, doc, json1):
-    """the recorded defect classes a path access can fall into (None: the access must work)"""
+def path_class(path, doc, json1, got):
+    """the recorded defect classes a path access can fall into, judged by the symptom as well (None: the access must work)"""
     names = [k for k in path if isinstance(k, str)]
     if any('"' in k for k in names): return 'json-key-double-quote'
     if json1:
-        if any(isinstance(k, int) and k < 0 for k in path): return 'json1-negative-index'
+        if any(isinstance(k, int) and k < 0 for k in path) and got == ('raised', 'OperationalError'): return 'json1-negative-index'
         if any(c == '\\' or ord(c) < 32 for k in names for c in k): return 'json1-key-escaped-char'
     else:
-        if isinstance(doc, list): return 'fallback-toplevel-array'
+        if isinstance(doc, list) and got == ('raised', 'TypeError'): return 'fallback-toplevel-array'
     return None
 
 
@@ -509,7 +509,7 @@ class Oracle:
         else:
             ok = got[0] == expected[0] and same(got[1], expected[1])
             if not ok:
-                cls = forced_class or path_class(path, doc, json1) or self.op_class(op, v, arg)
+                cls = forced_class or path_class(path, doc, json1, got) or self.op_class(op, v, arg)
                 self.violation(cls, 'JSON %s in a query differs from the operation on the decoded Python value' % op, inp, got, expected)
         return got, expected, ok
 
